@@ -389,3 +389,22 @@ PROPERTIES = {
     'C12': ['updateTB', 'clear_head', 'lemma_tbregion', 'setUsedSize'],
     'C04': ['setScore', 'getScore', 'isCutOff'],
 }
+
+MUTANTS = [
+    dict(name='getIndex_shift15', file='lib/texellib/transpositionTable.hpp', pattern=r'    r >>= 16;', repl='    r >>= 15;', groups=['getIndex']),
+    dict(name='getIndex_mask_low_bits', file='lib/texellib/transpositionTable.cpp', pattern=r'usedSizeMask = \(\(1ULL << usedSizeShift\) - 1\) & ~3ULL;', repl='usedSizeMask = ((1ULL << usedSizeShift) - 1) & ~1ULL;', groups=['setUsedSize']),
+    dict(name='setUsedSize_512', file='lib/texellib/transpositionTable.cpp', pattern=r'while \(topBits >= 256\) \{', repl='while (topBits >= 512) {', groups=['setUsedSize']),
+    dict(name='probe_five_slots', file='lib/texellib/transpositionTable.hpp', pattern=r'for \(int i = 0; i < 4; i\+\+\) \{\n        ent.load\(table\[idx0 \+ i\]\);', repl='for (int i = 0; i <= 4; i++) {\n        ent.load(table[idx0 + i]);', groups=['probe']),
+    dict(name='store_no_xor', file='lib/texellib/transpositionTable.hpp', pattern=r'ent.key.store\(key \^ data, std::memory_order_relaxed\);', repl='ent.key.store(key, std::memory_order_relaxed);', groups=['store', 'lemma_torn']),
+    dict(name='setScore_ply_sign', file='lib/texellib/transpositionTable.hpp', pattern=r'    if \(SearchConst::isWinScore\(score\)\)\n        score \+= ply;', repl='    if (SearchConst::isWinScore(score))\n        score -= ply;', groups=['setScore']),
+    dict(name='getScore_no_lose_shift', file='lib/texellib/transpositionTable.hpp', pattern=r'    else if \(SearchConst::isLoseScore\(sc\)\)\n        sc \+= ply;', repl='    else if (SearchConst::isLoseScore(sc))\n        sc += 0;', groups=['getScore', 'setScore']),
+    dict(name='depth_field_8bits', file='lib/texellib/transpositionTable.hpp', pattern=r'return getBits\(32, 9\);', repl='return getBits(32, 8);', groups=['lemma_fields']),
+    dict(name='type_field_overlap', file='lib/texellib/transpositionTable.hpp', pattern=r'setBits\(46, 2, t\);', repl='setBits(45, 2, t);', groups=['lemma_fields']),
+    dict(name='insert_wrong_slot', file='lib/texellib/transpositionTable.cpp', pattern=r'ent.store\(table\[idx\]\);', repl='ent.store(table[idx0]); ent.store(table[idx]);', groups=['insert']),
+    dict(name='putByte_wrong_half', file='lib/texellib/transpositionTable.hpp', pattern=r'    if \(offs < 8\) \{\n        U64 data = table\[ent\].key', repl='    if (offs <= 8) {\n        U64 data = table[ent].key', groups=['putByte']),
+    dict(name='resize_idx0', file='lib/texellib/transpositionTable.hpp', pattern=r'idx0 = table.byteSize\(\) - size;', repl='idx0 = table.byteSize() - size - 16;', groups=['resize', 'lemma_tbregion']),
+    dict(name='updateTB_keeps_partial', file='lib/texellib/transpositionTable.cpp', pattern=r'        tbGen.reset\(\); // Don.t leave a partially computed TB installed\n        setUsedSize\(tableSize\);\n', repl='', groups=['updateTB']),
+    dict(name='updateTB_used_minus', file='lib/texellib/transpositionTable.cpp', pattern=r'    setUsedSize\(tableSize - tbSize / sizeof\(TTEntryStorage\)\);', repl='    setUsedSize(usedSize - tbSize / sizeof(TTEntryStorage));', groups=['updateTB']),
+    dict(name='isCutOff_ignores_depth', file='lib/texellib/transpositionTable.hpp', pattern=r'    if \(eDepth >= depth\) \{', repl='    if (eDepth >= depth - 1) {', groups=['isCutOff']),
+    dict(name='isCutOff_mate_bound_type', file='lib/texellib/transpositionTable.hpp', pattern=r'\(eType == TType::T_EXACT \|\| eType == TType::T_GE\)\)\n        return true;', repl='(eType == TType::T_EXACT || eType == TType::T_LE))\n        return true;', groups=['isCutOff']),
+]
